@@ -615,24 +615,51 @@ def _bipartite_match(graph):
                         unlayered[v] = None
             return matching
 
-        def recurse(v):
-            """Recursively search backward through layers to find alternating
-            paths.  recursion returns true if found path, false otherwise
+        def search(v):
+            """Search backward through layers to find alternating paths.
+            Returns true if found path, false otherwise.
+
+            This is a depth-first search with an explicit stack (rather than
+            recursion), so that long alternating paths do not exceed the
+            interpreter's recursion limit.
             """
-            if v in preds:
-                L = preds[v]
-                del preds[v]
-                for u in L:
+            # Each stack entry is [v, iterator over preds[v], u being tried]
+            stack = []
+            found = False
+            while True:
+                if v is not None:
+                    # enter vertex v
+                    if v in preds:
+                        stack.append([v, iter(preds.pop(v)), None])
+                    found = False
+                    v = None
+                if not stack:
+                    return found
+                frame = stack[-1]
+                if found:
+                    # the search below frame[2] succeeded: extend the path
+                    matching[frame[0]] = frame[2]
+                    stack.pop()
+                    continue
+                for u in frame[1]:
                     if u in pred:
-                        pu = pred[u]
-                        del pred[u]
-                        if pu is unmatched or recurse(pu):
-                            matching[v] = u
-                            return True
-            return False
+                        pu = pred.pop(u)
+                        if pu is unmatched:
+                            matching[frame[0]] = u
+                            found = True
+                        else:
+                            frame[2] = u
+                            v = pu
+                        break
+                else:
+                    # no predecessor of this vertex leads to a free vertex
+                    stack.pop()
+                    continue
+                if found:
+                    stack.pop()
 
         for v in unmatched:
-            recurse(v)
+            search(v)
 
 
 def _outer_distance_mod_n(ref, est, modulus=12):
